@@ -23,7 +23,7 @@ func (c18) Budget(tier string) (int, int) {
 	if tier == "thorough" {
 		return 30000000, 480
 	}
-	return 400000, 20
+	return 150000, 90
 }
 func (c18) Rule() string {
 	return fmt.Sprintf("stage A (deterministic): 2-6 tasks, each a real goroutine with private Buffer / ValueReader / destinations / Decode targets executing 1-5 operations drawn from the whole exported API on 1-4 SHARED read-only documents; half of the scenarios make all tasks run the same function. The library is an AST-instrumented copy of /repo's working tree with a yield at every function entry, loop body and Ragel state label (%d sites in this build); simulator-owned handler callbacks run between yields. Exactly one task is runnable; the schedule tape names which task runs next and for how many yields (quantum 1..256). Oracle: every operation's outcome equals its outcome when the same scenario runs one task after another in the same binary; shared documents unchanged. Non-trivial: at least one task switch landed inside a library call; distinct = distinct hashes of the (task, yield-site kind) switch sequence plus operations.", len(rjson.VerifSites))
